@@ -1,5 +1,7 @@
 import YarlProofs.C05
 import YarlProofs.Lemmas.WfLemmas
+import YarlProofs.C19Quoter
+import YarlProofs.C01Reach
 /-!
   C05Headline.lean — AUDIT LAYER for property C05.
 
@@ -15,6 +17,14 @@ import YarlProofs.Lemmas.WfLemmas
   backend plus the oracles (`o`), so "independent of the C extension" reads `f ⟨.py, o⟩ … = f ⟨.c, o⟩ …`.
   `PyStr s`: every code point ≤ 0x10FFFF (lone surrogates allowed).  `DecLemmas.QArgPy a`: the texts inside a query
   argument are Python strings.
+  `QuoteW.quoteCW n t faults s` (YarlModel/QuoteW.lean): `_Quoter._do_quote_or_skip` of `_quoting_c.pyx` transcribed
+  statement by statement with every output character going through `Writer.writeChar` (`_write_char`) on a buffer of
+  `n` bytes (static first, grown by `n` through PyMem_Malloc / PyMem_Realloc); `faults k = true` means the k-th
+  growth request of the call is refused (→ MemoryError); the result is (outcome, final writer state).
+  `QuoteW.unquoteCW n u faults s`: `_Unquoter._do_unquote` with its two inner `_Quoter` calls run through `quoteCW`.
+  `a.tabC` = the table of configuration `a` on the compiled backend (`a.run .c s` is `quoteC a.tabC s` by definition);
+  `cOut t x` = the characters the compiled loop writes for input `x`, `cChanged t x` = its final `changed` flag,
+  `allSafe t x` = the fast path "every character is safe" (YarlModel/Quote.lean); `stripSurr` drops lone surrogates.
 -/
 set_option linter.unusedVariables false
 namespace Yarl
@@ -47,6 +57,57 @@ theorem C05_headline_buffer_growth_invisible (cs : List Nat) :
   ⟨fun n hn => C05_writer n hn cs, C05_writer_gen cs, by decide⟩
 -- Appendix E: C05_writer ↦ C05_writer (the fault oracle is `fun _ => false` = "no allocation fails"; the planned text
 --             had `fun _ => true` with the opposite polarity; result is the first component of `Writer.run`).
+
+/-- "… outputs that cross the … 8 KiB buffer-growth boundaries" for the compiled QUOTER ITSELF (closes GAPS 2): the
+    interleaved loop of `_do_quote`, writing character by character through its writer, (1) IS `Writer.run` applied to
+    the batch output `cOut` followed by the `changed` test, with literally the final writer state of `Writer.run` (fast
+    path: no writer at all) — the statement "combining `QArgs.run .c` with `Writer.run`" GAPS 2 missed; (2) without a
+    refused allocation returns what the pure-Python quoter returns, for EVERY buffer size `n` — so for outputs crossing
+    any number of `k·n` boundaries — and (3) in particular at the generated size 8192.
+    Cites C19_quoteCW_refines_run, C05_quoteCW_backend_any, C05_quoteCW_backend (C19Quoter.lean). -/
+theorem C05_headline_buffer_growth_quoter_through_writer (a : QArgs) (ha : a ∈ Gen.allQuoters) (faults : Nat → Bool)
+    (s : Str) (hs : PyStr s) :   -- model artefact, as in `C05_headline_quoters_agree`
+    (∀ n,
+      (allSafe a.tabC (stripSurr s) = true → QuoteW.quoteCW n a.tabC faults s = (.ok (stripSurr s), Writer.init n)) ∧
+      (allSafe a.tabC (stripSurr s) = false →
+        QuoteW.quoteCW n a.tabC faults s =
+          ((Writer.run n faults (cOut a.tabC (stripSurr s))).1.map
+              (fun d => if cChanged a.tabC (stripSurr s) then d else stripSurr s),
+           (Writer.run n faults (cOut a.tabC (stripSurr s))).2))) ∧
+    (∀ n, (∀ i, faults i = false) →     -- no allocation fails
+      (QuoteW.quoteCW n a.tabC faults s).1 = .ok (a.run .py s)) ∧
+    ((∀ i, faults i = false) → (QuoteW.quoteCW Gen.bufSize a.tabC faults s).1 = .ok (a.run .py s)) ∧
+    Gen.bufSize = 8192 :=
+  ⟨fun n => C19_quoteCW_refines_run n a.tabC faults s, fun n hf => C05_quoteCW_backend_any n a ha faults s hs hf,
+   fun hf => C05_quoteCW_backend a ha faults s hs hf, by decide⟩
+
+/-- the same for the compiled UNQUOTER (its only writer activity is two inner `_Quoter` calls per decoded character,
+    each writing at most 12 characters — less than the static buffer): at the real buffer size it returns what the
+    pure-Python unquoter returns under ANY allocation-fault pattern.  Cites C05_unquoteCW_backend (C19Quoter.lean). -/
+theorem C05_headline_buffer_growth_unquoter_through_writer (a : UArgs) (ha : a ∈ Gen.allUnquoters)
+    (faults : Nat → Bool) (s : Str) :
+    QuoteW.unquoteCW Gen.bufSize (a.tab .c) faults s = .ok (a.run .py s) :=
+  C05_unquoteCW_backend a ha faults s
+
+/-! ## Sentence 1c — "(or raise the same exception type)" -/
+
+/-- "(or raise the same exception type)" — what the model can say (GAPS 1, partly): the pure-Python quoter model is
+    total; the compiled quoter through its writer returns the pure-Python result or raises MemoryError, nothing else;
+    MemoryError exactly when the call leaves the fast path and a growth request its output length needs is refused
+    (request `k` is needed iff the output has more than `(k+1)·8192` characters); never when the output fits the
+    static buffer.  So the ONLY divergence is an out-of-memory condition of the compiled side (property C19).
+    Cites C05_quoteCW_backend_fault, C19_quoteCW_fault_iff (C19Quoter.lean). -/
+theorem C05_headline_exceptions_quoter (a : QArgs) (ha : a ∈ Gen.allQuoters) (faults : Nat → Bool) (s : Str)
+    (hs : PyStr s) :   -- model artefact
+    ((QuoteW.quoteCW Gen.bufSize a.tabC faults s).1 = .ok (a.run .py s) ∨
+      (QuoteW.quoteCW Gen.bufSize a.tabC faults s).1 = .error .memoryError) ∧
+    ((QuoteW.quoteCW Gen.bufSize a.tabC faults s).1 = .error .memoryError ↔
+      allSafe a.tabC (stripSurr s) = false ∧
+      ∃ k, (k + 1) * Gen.bufSize < (cOut a.tabC (stripSurr s)).length ∧ faults k = true) ∧
+    ((cOut a.tabC (stripSurr s)).length ≤ Gen.bufSize →
+      (QuoteW.quoteCW Gen.bufSize a.tabC faults s).1 = .ok (a.run .py s)) :=
+  ⟨(C05_quoteCW_backend_fault a ha faults s hs).1, C19_quoteCW_fault_iff Gen.bufSize (by decide) a.tabC faults s,
+   (C05_quoteCW_backend_fault a ha faults s hs).2⟩
 
 /-! ## Sentence 2 — "Every URL-level result is therefore independent of whether the C extension is available" -/
 
@@ -174,29 +235,66 @@ theorem C05_headline_remaining_modifiers_backend (o : Oracles) (u : Url) (hq : P
     · exact C05_with_query_backend_any o u _ (HeadA.strItems_py _ (fun p hp =>
         WfLemmas.parseQsl_pyStr _ hq p (List.mem_filter.mp hp).1))
 
+/-- the same for every URL the auto-encoding API produces (closes GAPS 4): the hypothesis `PyStr u.query` of
+    `C05_headline_remaining_modifiers_backend` follows from reachability (`Reach`, C01Reach.lean: constructor, build,
+    the 19 operations, join — on EITHER backend `b`), because the stored query of a reachable URL is QUERY_REQUOTER
+    output.  NEW composition with C01_reachable_wf (C01Reach.lean) and WfLemmas.outLang_pyStr. -/
+theorem C05_headline_remaining_modifiers_backend_reachable (b : Backend) (o : Oracles) (u : Url)
+    (hreach : Reach ⟨b, o⟩ u) :
+    (∀ a, DecLemmas.QArgPy a → updateQuery ⟨.py, o⟩ u a = updateQuery ⟨.c, o⟩ u a) ∧
+    (∀ ns, withoutQueryParams ⟨.py, o⟩ u ns = withoutQueryParams ⟨.c, o⟩ u ns) ∧
+    (∀ s, withScheme ⟨.py, o⟩ u s = withScheme ⟨.c, o⟩ u s) ∧
+    (∀ r, join ⟨.py, o⟩ u r = join ⟨.c, o⟩ u r) :=
+  C05_headline_remaining_modifiers_backend o u
+    (WfLemmas.outLang_pyStr (by decide : Gen.QUERY_REQUOTER ∈ Gen.allQuoters) b (C01_reachable_wf ⟨b, o⟩ u hreach).query)
+
 /-! ## non-vacuity -/
 
 example : Gen.PATH_REQUOTER.run .py DecLemmas.sampleText = Gen.PATH_REQUOTER.run .c DecLemmas.sampleText :=
   C05_headline_quoters_agree _ (by decide) _ (by decide)
 
+/-- 6000 spaces quote to 18000 characters (two growths: the malloc at 8192, the realloc at 16384): with no refused
+    allocation the compiled quoter through its writer returns the pure-Python result … -/
+example : (QuoteW.quoteCW Gen.bufSize Gen.PATH_QUOTER.tabC (fun _ => false) (List.replicate 6000 32)).1 =
+    .ok (Gen.PATH_QUOTER.run .py (List.replicate 6000 32)) :=
+  (C05_headline_buffer_growth_quoter_through_writer _ (by decide) _ _
+    (by intro c hc; rw [List.eq_of_mem_replicate hc]; decide)).2.2.1 (fun _ => rfl)
+
+/-- … and with the realloc (request 1) refused it raises MemoryError, by the "iff" of `C05_headline_exceptions_quoter` -/
+example : (QuoteW.quoteCW Gen.bufSize Gen.PATH_QUOTER.tabC (fun i => i == 1) (List.replicate 6000 32)).1 =
+    .error .memoryError :=
+  (C05_headline_exceptions_quoter Gen.PATH_QUOTER (by decide) _ _
+    (by intro c hc; rw [List.eq_of_mem_replicate hc]; decide)).2.1.mpr
+    ⟨(exSpaces 5999).1, 1, by rw [(exSpaces 5999).2]; decide, rfl⟩
+
 /-
 GAPS:
- 1. "(or raise the same exception type)": the quoter / unquoter models are TOTAL functions on lists of code points;
-    the only exceptions of the real implementations (TypeError for a non-str argument, MemoryError) are outside
-    `a.run`.  No theorem compares exception behaviour of the two backends; MemoryError is C19 (C19_writer_*),
-    compiled side only.
- 2. Buffer growth: C05_writer is about the `Writer` model in isolation (YarlModel/Writer.lean).  The compiled quoter
-    model `a.run .c` does not write through `Writer.run`, so "the compiled quoter's output is what its Writer
-    returns" holds by construction of the model, not by a theorem; there is no statement combining `QArgs.run .c`
-    with `Writer.run`.  Likewise nothing is said about outputs ≥ 8192 bytes specifically (the equality theorems
-    hold for all lengths, which subsumes it only modulo the previous sentence).
+ 1. PARTLY CLOSED by C05_quoteCW_backend_fault, C19_quoteCW_fault_iff (C19Quoter.lean), see
+    C05_headline_exceptions_quoter (and C05_headline_buffer_growth_unquoter_through_writer for the unquoter, which
+    cannot fail).  Proved: the compiled quoter executed through its writer returns the pure-Python result or raises
+    MemoryError, and MemoryError exactly when a growth request that the output length needs is refused; the
+    pure-Python model never raises.  STILL OPEN: the quoter / unquoter models `a.run` are TOTAL functions on lists of
+    code points; the other exception of the real implementations (TypeError for a non-str argument) is outside
+    `a.run` and `quoteCW`, so no theorem compares it across the two backends.
+ 2. CLOSED by C19_quoteCW_refines_run, C05_quoteCW_backend_any, C05_quoteCW_backend, C05_unquoteCW_backend
+    (C19Quoter.lean, over the new model file YarlModel/QuoteW.lean), see
+    C05_headline_buffer_growth_quoter_through_writer, C05_headline_buffer_growth_unquoter_through_writer.  Proved: the
+    compiled quoter transcribed statement by statement THROUGH `Writer.writeChar` equals `Writer.run` on the batch
+    output (slow path) and, when no allocation is refused, returns `a.run .py s` for every generated configuration,
+    every Python string and EVERY buffer size (hence across any number of 8192-byte boundaries; instance with an
+    18000-character output in the non-vacuity block).  What remains by construction: `QuoteW.quoteCW` is itself a
+    transcription of `_quoting_c.pyx` (trusted like the other model files); `a.run .c` is still the batch function
+    `quoteC`, related to `quoteCW` by these theorems.
  3. URL level — now covered: constructors (both), build, every accessor of YarlModel/Url.lean, str, human_repr, all
     modifiers incl. update_query / without_query_params / with_scheme / join (last four NEW here).  Still without a
     backend theorem: the cached layer (YarlModel/Cache.lean — C08/C20 treat it for an arbitrary pure semantics, hence
     for either backend), comparison / hashing (env-free, trivially equal), and `QArg` kinds with non-Python
     texts (excluded by `QArgPy`).
- 4. `C05_headline_remaining_modifiers_backend` needs `PyStr u.query`; for records made by the API this follows from
-    `WFUrl` (WfLemmas.outLang_pyStr) but the composition `Reach e u → …` is not stated.
+ 4. CLOSED, see C05_headline_remaining_modifiers_backend_reachable (NEW composition with C01_reachable_wf,
+    C01Reach.lean): for every URL reachable through the auto-encoding API (on either backend) `PyStr u.query` holds,
+    so update_query / without_query_params / with_scheme / join agree on the two backends without further
+    hypothesis.  (Records made with `encoded=True` are outside `Reach`; for them the hypothesis `PyStr u.query` of
+    C05_headline_remaining_modifiers_backend stays.)
  5. The oracles (`o`: IDNA, NFKC, isprintable, …) are shared by both sides by construction: "independent of the C
     extension" is proved for equal oracle answers, which is right because none of them lives in the C extension.
 -/
